@@ -1,5 +1,6 @@
 //! Writers for the file formats (independent of calamine's parsers).
 pub mod xml;
+pub mod biff8;
 pub mod cfb;
 pub mod ods;
 pub mod xlsx;
